@@ -139,7 +139,7 @@ TNext == /\ l <= N /\ Alive(fs, ss, es)
 TSpec == TInit /\ [][TNext]_tvars
 
 ObsOK == (l > 1 /\ sync /\ Alive(fs, ss, es) /\ Rec[l - 1].ret[1] # "panic") =>
-  ( (Rec[l - 1].obs[1] = EMods(es) /\ Rec[l - 1].obs[2] = EMode(es))
+  ( ((EMods(es) = -1 \/ Rec[l - 1].obs[1] = EMods(es)) /\ Rec[l - 1].obs[2] = EMode(es))
     \/ Flag([prop |-> IF Mode = "wiring" THEN "C18" ELSE "C04", kind |-> "trace-obs", comp |-> Comp, line |-> l - 1,
              input |-> Rec[l - 1]["in"], observed |-> Rec[l - 1].obs, expected |-> <<EMods(es), EMode(es)>>]) )
 
